@@ -160,12 +160,16 @@ def _check_entry_points(run: Run, ctx, m) -> None:
         fa = ctx.analysis(fi)
         selfp = ("param", fi.pos_params[0]) if fi.pos_params else None
         value_params = {("param", p) for p in fi.pos_params[1:]}
-        for c in calls_in(fi):
-            if not (isinstance(c.func, ast.Name) and c.func.id == "function_call" and len(c.args) == 2 and isinstance(c.args[1], ast.List)):
+        if name.startswith("_") and not name.startswith("__"):
+            continue  # private helpers are seen, with their parameters bound, from the public methods that call them
+        from ..lib import call_events
+
+        for ev in call_events(ctx, fi, lambda n: n == "function_call"):
+            if not (len(ev.args) == 2 and ev.args[1][0] == "list"):
                 continue
             n_calls += 1
-            for e in c.args[1].elts:
-                t = strip_sites(fa.term_of(e))
+            c = ev.call if ev.owner is fi else fi.node
+            for t in ev.args[1][1]:
                 ok = False
                 why = show(t)[:100]
                 for a in unphi_terms(t):
@@ -183,7 +187,7 @@ def _check_entry_points(run: Run, ctx, m) -> None:
                     else:
                         ok = False
                         break
-                run.check(ok, "C13.R2", fi, stmt_of(c), "function_call argument is stream AST / processed lambda / as_ast(value)", f"{name} embeds {why} into the query: a python value reaches the AST without going through as_ast, or a transformed value is embedded", "as_ast(value)", show(t)[:200])
+                run.check(ok, "C13.R2", fi, stmt_of(c) if c is not fi.node else c, "function_call argument is stream AST / processed lambda / as_ast(value)", f"{name} embeds {why} into the query: a python value reaches the AST without going through as_ast, or a transformed value is embedded", "as_ast(value)", show(t)[:200])
     run.floor("C13.R2", n_calls, 8, "function_call sites in ObjectStream")
     # as_literal is ast.Constant(value=p) with no conversion
     al = m.find_func("as_literal", in_module="func_adl.util_ast")
@@ -192,16 +196,20 @@ def _check_entry_points(run: Run, ctx, m) -> None:
     ok = rt[0] == "new" and rt[1] == "Constant" and dict(rt[2]).get("value") == ("param", al.pos_params[0])
     run.check(ok, "C13.R2", al, al.node, "as_literal(p) == ast.Constant(value=p)", f"as_literal returns {show(rt)[:120]}: the value is converted on the way into the query", term=show(rt))
     fd = m.find_func("_fill_in_default_arguments", in_module="func_adl.type_based_replacement")
-    fa = ctx.analysis(fd)
+    from ..lib import unit
+
     n_def = 0
-    for c in calls_in(fd):
-        if isinstance(c.func, ast.Name) and c.func.id == "as_literal":
-            n_def += 1
-            t = strip_sites(fa.term_of(c.args[0]))
-            ok = t[0] == "attr" and t[2] == "default"
-            run.check(ok, "C13.R2", fd, stmt_of(c), "declared default embedded unchanged via as_literal(param.default)", f"default embedded as as_literal({show(t)[:80]})")
-    appended_defaults = [c for c in calls_in(fd) if isinstance(c.func, ast.Attribute) and c.func.attr == "append"]
-    for c in appended_defaults:
+    for g_ in unit(m, fd):
+        fa = ctx.analysis(g_)
+        for c in calls_in(g_):
+            if isinstance(c.func, ast.Name) and c.func.id == "as_literal":
+                n_def += 1
+                t = strip_sites(fa.term_of(c.args[0]))
+                ok = t[0] == "attr" and t[2] == "default"
+                run.check(ok, "C13.R2", g_, stmt_of(c), "declared default embedded unchanged via as_literal(param.default)", f"default embedded as as_literal({show(t)[:80]})")
+    appended_defaults = [(g_, c) for g_ in unit(m, fd) for c in calls_in(g_) if isinstance(c.func, ast.Attribute) and c.func.attr == "append"]
+    for g_, c in appended_defaults:
+        fa = ctx.analysis(g_)
         t = strip_sites(fa.term_of(c.args[0])) if c.args else ("top", "?")
         for a in unphi_terms(t):
             if contains(a, lambda s: s[0] == "attr" and s[2] == "default") and not (a[0] == "app" and a[1][0] == "global" and a[1][1].endswith("as_literal")):
@@ -257,13 +265,14 @@ def _check_gate(run: Run, ctx, m) -> None:
         fi = os_cls.methods.get(op)
         if fi is None:
             raise AnalysisError(f"anchor vanished: ObjectStream.{op}")
-        fa = ctx.analysis(fi)
-        gates = [c for c in calls_in(fi) if isinstance(c.func, ast.Name) and c.func.id == "check_ast" and c.args]
-        builds = [c for c in calls_in(fi) if isinstance(c.func, ast.Name) and c.func.id == "function_call" and len(c.args) == 2 and isinstance(c.args[1], ast.List) and len(c.args[1].elts) == 2]
+        from ..lib import call_events, event_before
+
+        gates = [e for e in call_events(ctx, fi, lambda n: n == "check_ast") if e.args]
+        builds = [e for e in call_events(ctx, fi, lambda n: n == "function_call") if len(e.args) == 2 and e.args[1][0] == "list" and len(e.args[1][1]) == 2]
         run.check(len(builds) == 1, "C13.R3", fi, fi.node, f"{op} builds one operator node", f"{len(builds)} operator nodes built in {op}")
         if len(builds) != 1:
             continue
-        lam_t = strip_sites(fa.term_of(builds[0].args[1].elts[1]))
-        ok = any(strip_sites(fa.term_of(g.args[0])) == lam_t and fa.cfg.dominates(fa.cfg.node_of(g), fa.cfg.node_of(builds[0])) for g in gates)
-        got = [show(strip_sites(fa.term_of(g.args[0])))[:60] for g in gates]
-        run.check(ok, "C13.R3", fi, stmt_of(gates[0]) if gates else fi.node, f"{op}: check_ast(<emitted lambda>) dominates node construction", f"{op} does not pass the lambda it emits through check_ast before building the node (gate applied to: {got}): non-transportable captured values are embedded without ValueError", "check_ast(n_ast)")
+        lam_t = builds[0].args[1][1][1]
+        ok = any(g.args[0] == lam_t and event_before(ctx, fi, g, builds[0]) for g in gates)
+        got = [show(g.args[0])[:60] for g in gates]
+        run.check(ok, "C13.R3", fi, stmt_of(gates[0].call) if gates and gates[0].owner is fi else fi.node, f"{op}: check_ast(<emitted lambda>) dominates node construction", f"{op} does not pass the lambda it emits through check_ast before building the node (gate applied to: {got}): non-transportable captured values are embedded without ValueError", "check_ast(n_ast)")
